@@ -442,11 +442,11 @@ mutual
             opt prewheres.isSome (K " PREWHERE ") ++ renderOpt { k with quote := .given k.q, subquery := true } prewheres ++
             whereDoc ++
             opt (!groupbys.isEmpty) (kws " GROUP BY " ::
-                joinDocs (K ",") (renderGroupBy { k with quote := .given k.q, groupbyAlias := true } selects k.groupbyAlias k.aq groupbys) ++
+                joinDocs (K ",") (renderGroupBy { k with quote := .given k.q, groupbyAlias := true, subquery := true } selects k.groupbyAlias k.aq groupbys) ++
                 opt fl.withTotals (K " WITH TOTALS") ++ opt fl.mysqlRollup (K " WITH ROLLUP")) ++
-            opt havings.isSome (K " HAVING ") ++ renderOpt { k with quote := .given k.q } havings ++
+            opt havings.isSome (K " HAVING ") ++ renderOpt { k with quote := .given k.q, subquery := true } havings ++
             opt (!orderbys.isEmpty) (kws " ORDER BY " ::
-                joinDocs (K ",") (renderOrderBy { k with quote := .given k.q } selects k.aq orderbys)) ++
+                joinDocs (K ",") (renderOrderBy { k with quote := .given k.q, subquery := true } selects k.aq orderbys)) ++
             opt (fl.cls = .clickhouse && fl.limitBy.isSome) (limitByDoc fl
                 (joinDocs (K ",") (renderL { k with withAlias := false } limitByTerms))) ++
             paginate fl.cls fl.limit fl.offset ++ forUpdateDoc fl k.q
